@@ -44,7 +44,7 @@ BtHid    == << "clock", "enable", "empty", "full" >>
 HidIds == (0..3) \cup { 16 + 32 * c + f : c \in 0..7, f \in 0..17 } \cup { 300, 301 } \cup (400..447)
           \cup { 500 + 10 * i + f : i \in 0..1, f \in 0..7 } \cup (520..528) \cup (530..542) \cup { 545, 546 }
           \cup (550..554) \cup { 560 + 5 * i + f : i \in 0..1, f \in 0..3 }
-HidKey == [id \in HidIds |->
+HidKey == TLCEval([id \in HidIds |->
              CASE id <= 3   -> TK(id \div 2, IF id % 2 = 0 THEN "cnt_hi" ELSE "cnt_lo")
                [] id <= 271 -> <<"dma", (id - 16) \div 32, HidFields[((id - 16) % 32) + 1]>>
                [] id <= 301 -> K("bt", id - 300, "qlen")
@@ -60,7 +60,7 @@ HidKey == [id \in HidIds |->
                [] id = 550  -> ReqK
                [] id <= 553 -> K("icu", id - 551, "enable")
                [] id = 554  -> K("icu", 0, "venable")
-               [] OTHER     -> K("bt", (id - 560) \div 5, BtHid[((id - 560) % 5) + 1])]
+               [] OTHER     -> K("bt", (id - 560) \div 5, BtHid[((id - 560) % 5) + 1])])
 
 Pure == AllOffs \ CmdOffs                       \* offsets the recorder reads back after every event
 DocPure == DocOffs \ CmdOffs
@@ -92,31 +92,31 @@ WriteFrame(off, v, out) ==
 ReadFrame(off) == \A o \in ObsChanged : <<off, o>> \in ReadCoupled
 
 -----------------------------------------------------------------------------
+\* (operators, not LETs inside the actions: TLC re-evaluates an action-level LET at every use)
+NewStep(s1) ==
+    /\ SeqSet(Rec.nz)  = { <<o, Read(s1, o)>> : o \in { x \in Pure : Read(s1, x) # 0 } }
+    /\ SeqSet(Rec.hnz) = { <<id, s1[HidKey[id]]>> : id \in { x \in HidIds : s1[HidKey[x]] # 0 } }
+    /\ regs' = s1 /\ ln' = ln + 1 /\ frame' = TRUE /\ rdb' = ReadAll(s1)
+\* a new object: constructor values everywhere, ICU vector tables (logged as found) included
 TNew ==
     /\ IsEvent("New")
-    /\ \A i \in 1..3, j \in 1..16 : Rec.iv[i][j] \in 0..65535     \* uninitialised: whatever was found
-    /\ LET s1 == FreshWith(Rec.iv) IN
-       /\ SeqSet(Rec.nz)  = { <<o, Read(s1, o)>> : o \in { x \in Pure : Read(s1, x) # 0 } }
-       /\ SeqSet(Rec.hnz) = { <<id, s1[HidKey[id]]>> : id \in { x \in HidIds : s1[HidKey[x]] # 0 } }
-       /\ regs' = s1 /\ ln' = ln + 1 /\ frame' = TRUE /\ rdb' = ReadAll(s1)
+    /\ \A i \in 1..3, j \in 1..16 : Rec.iv[i][j] = 0
+    /\ NewStep(Fresh)
 
 TReset == IsEvent("Reset") /\ Go(ResetEffect(regs), \h800, TRUE)
 
-TW ==
-    /\ IsEvent("W")
-    /\ LET w == AccessWrite(regs, Rec.p, Rec.a, Rec.v) IN
-       /\ w.off = Rec.o
-       /\ w.out = Rec.out
-       /\ Go(w.s, w.off, IF w.off = \h800 THEN ObsChanged = {} ELSE WriteFrame(w.off, Rec.v, Rec.out))
+StepW(w) ==
+    /\ w.off = Rec.o
+    /\ w.out = Rec.out
+    /\ Go(w.s, w.off, IF w.off = \h800 THEN ObsChanged = {} ELSE WriteFrame(w.off, Rec.v, Rec.out))
+TW == IsEvent("W") /\ StepW(AccessWrite(regs, Rec.p, Rec.a, Rec.v))
 
-TR ==
-    /\ IsEvent("R")
-    /\ Rec.p = "g" => InWindow(regs, Rec.a)
-    /\ LET r == AccessRead(regs, Rec.p, Rec.a) IN
-       /\ r.off = Rec.o
-       /\ r.out = Rec.out
-       /\ r.r   = Rec.r
-       /\ Go(r.s, r.off, ReadFrame(r.off))
+StepR(r) ==
+    /\ r.off = Rec.o
+    /\ r.out = Rec.out
+    /\ r.r   = Rec.r
+    /\ Go(r.s, r.off, ReadFrame(r.off))
+TR == IsEvent("R") /\ (Rec.p = "g" => InWindow(regs, Rec.a)) /\ StepR(AccessRead(regs, Rec.p, Rec.a))
 
 \* the host side of the mailbox: may change the DSP-side status words and raise IRQ 14
 HostFrame == ObsChanged \subseteq { \hC2, \hC6, \hCA, \hD2, \hD6, \hD8, \h200 }
